@@ -566,7 +566,15 @@ func CheckC18(p *Pkg, e *Env, r *res.Result) {
 					docClass = ":valid-document"
 					bodyMode := 0
 					if mode == "body" {
-						bodyMode = rapid.SampledFrom([]int{0, 1, 1, 2}).Draw(t, "body_mode")
+						bodyMode = rapid.SampledFrom([]int{0, 1, 1, 2, 3}).Draw(t, "body_mode")
+					}
+					if bodyMode == 3 {
+						// one integer just outside (or at the edge of) the int32 / int64 ranges:
+						// accepted or refused, but alike by both forms
+						if st, ok := refmodel.StretchNumber(t, doc); ok {
+							doc = st
+							docClass = ":document-with-stretched-integer"
+						}
 					}
 					if bodyMode == 1 {
 						if sites := refmodel.FaultSites(p.Doc, mt.Schema, doc); len(sites) > 0 {
